@@ -28,6 +28,64 @@ TOL = Fraction(1, 100000)
 R9 = Fraction(1, 10**9)
 
 
+def corrected_equivalences(ctx, env):
+    """a unit of the user's own whose size is stated, used, and then stated again with a corrected number: from then on
+    arithmetic and comparison with it must give one physical answer whatever unit the other operand is written in
+    (exact bookkeeping: the unit is k metres / seconds / grams, the other operand is in shipped units with exact ratios)"""
+    m, rng = env.m, ctx.rng
+    U, P = m.Unit._by_name, env.pools.prefixes
+    Q = m.Quantity
+    kinds = [
+        (m.Length, "meter", [(U["meter"], Fraction(1)), (P["centi"] * U["meter"], Fraction(1, 100)), (U["inch"], Fraction(254, 10000)), (U["foot"], Fraction(3048, 10000)), (P["kilo"] * U["meter"], Fraction(1000))]),
+        (m.Time, "second", [(U["second"], Fraction(1)), (U["minute"], Fraction(60)), (P["milli"] * U["second"], Fraction(1, 1000)), (U["hour"], Fraction(3600))]),
+        (m.Mass, "gram", [(U["gram"], Fraction(1)), (P["kilo"] * U["gram"], Fraction(1000)), (P["milli"] * U["gram"], Fraction(1, 1000))]),
+    ]
+    for k in range(9 if ctx.tier == "quick" else 300):
+        dim, base_name, others = kinds[k % len(kinds)]
+        nm = f"zqc06own{ctx.shard}x{k}"
+        own = m.Unit.define(dim, nm, nm)
+        sizes = rng.sample([Fraction(1143, 1000), Fraction(5, 4), Fraction(2), Fraction(1, 2), Fraction(9, 8), Fraction(3)], 3)
+        anchor = rng.choice(others[:2])   # the pair that is stated again is always the same one
+        for size in sizes:
+            own.equals(core.sf(size / anchor[1]) * anchor[0])
+            x = rng.choice([1, 2, 0.5, 10])
+            a, a_si = Q(x, own), Fraction(x) * size
+            for (ub, sb) in others:
+                y_si = a_si * rng.choice([Fraction(1), Fraction(11, 10), Fraction(1, 4), Fraction(3)])
+                b = Q(core.sf(y_si / sb), ub)
+                for opname in ("add", "radd", "sub", "lt", "gt", "eq"):
+                    ctx.count("evaluations")
+                    ctx.count("operations/after_a_corrected_equivalence")
+                    ctx.distinct(("corrected", opname, str(ub), base_name), True)
+                    case = {"op": opname, "a": repr(a), "b": repr(b), "size_now": str(size), "sizes_stated": [str(z) for z in sizes]}
+                    try:
+                        if opname == "add":
+                            r = a + b
+                            got, want = Fraction(r.magnitude) * size, a_si + y_si
+                        elif opname == "radd":
+                            r = b + a
+                            got, want = Fraction(r.magnitude) * sb, a_si + y_si
+                        elif opname == "sub":
+                            r = a - b
+                            got, want = Fraction(r.magnitude) * size, a_si - y_si
+                        else:
+                            r = {"lt": a < b, "gt": a > b, "eq": a == b}[opname]
+                            if a_si == y_si:
+                                ctx.count("ties_skipped")
+                                continue
+                            want = {"lt": a_si < y_si, "gt": a_si > y_si, "eq": False}[opname]
+                            if r is not want:
+                                ctx.violation(f"C06:{opname}:disagrees-with-si-order", f"{a!r} {opname} {b!r} is {r!r} after {nm} was stated as {[str(z) for z in sizes]} x {base_name} "
+                                              f"(now {size}): SI values {core.sf(a_si)!r} vs {core.sf(y_si)!r}", case)
+                            continue
+                    except Exception as e:
+                        ctx.violation(f"C06:{opname}:raised-{type(e).__name__}", f"{a!r} {opname} {b!r}: {e}", case)
+                        continue
+                    if abs(got - want) > max(abs(want), abs(a_si)) * Fraction(1, 10**9):
+                        ctx.violation(f"C06:{opname if opname != 'radd' else 'add'}:si-value-differs", f"{a!r} {opname} {b!r} = {r!r} after {nm} was stated as {[str(z) for z in sizes]} x {base_name} "
+                                      f"(now {size}): SI value {core.sf(got)!r}, expected {core.sf(want)!r}", case)
+
+
 def run(ctx):
     env = kit.Env(ctx)
     m, mdl, pools, rng, orc = env.m, env.mdl, env.pools, ctx.rng, env.orc
@@ -194,6 +252,7 @@ def run(ctx):
                 if i % 700 == 9 and len(ctx.samples) < 8 and xa.unit is not xb.unit:
                     ctx.sample({"op": opname, "a": str(xa), "b": str(xb), "result": str(res)})
         # equality of re-expressions of one value (tie side: must not be *ordered* inconsistently)
+    corrected_equivalences(ctx, env)
     ctx.require("operations/add", 100)
     ctx.require("operations/mul", 100)
     ctx.require("comparisons_away_from_ties", 100)
